@@ -620,6 +620,87 @@ func main() {
 	for _, r := range rows {
 		fmt.Printf("fact F9 accessor %s\n", r)
 	}
+	// F15: every write to a field of Decoder / DecodeResult / FieldData, with the enclosing function
+	writes := map[string]bool{}
+	namedOf := func(e ast.Expr) string {
+		tv, ok := lz.info.Types[e]
+		if !ok || tv.Type == nil {
+			return ""
+		}
+		t := tv.Type
+		if p, ok := t.(*types.Pointer); ok {
+			t = p.Elem()
+		}
+		if n, ok := t.(*types.Named); ok {
+			return n.Obj().Name()
+		}
+		return ""
+	}
+	var lhsField func(e ast.Expr) string
+	lhsField = func(e ast.Expr) string {
+		switch e := e.(type) {
+		case *ast.ParenExpr:
+			return lhsField(e.X)
+		case *ast.SelectorExpr:
+			if n := namedOf(e.X); n == "Decoder" || n == "DecodeResult" || n == "FieldData" {
+				return n + "." + e.Sel.Name
+			}
+		case *ast.IndexExpr:
+			if f := lhsField(e.X); f != "" {
+				return f + "[]"
+			}
+		case *ast.StarExpr:
+			return lhsField(e.X)
+		}
+		return ""
+	}
+	for _, f := range lz.files {
+		for _, dcl := range f.Decls {
+			fd, ok := dcl.(*ast.FuncDecl)
+			if !ok || fd.Body == nil {
+				continue
+			}
+			fname := fd.Name.Name
+			ast.Inspect(fd.Body, func(n ast.Node) bool {
+				switch st := n.(type) {
+				case *ast.AssignStmt:
+					for _, l := range st.Lhs {
+						if fl := lhsField(l); fl != "" {
+							writes[fl+"<-"+fname] = true
+						}
+					}
+				case *ast.IncDecStmt:
+					if fl := lhsField(st.X); fl != "" {
+						writes[fl+"<-"+fname] = true
+					}
+				case *ast.CompositeLit:
+					// struct literals initialise a *new* object: recorded as constructor writes
+					if n := namedOf(st); n == "Decoder" || n == "DecodeResult" || n == "FieldData" {
+						for _, el := range st.Elts {
+							if kv, ok := el.(*ast.KeyValueExpr); ok {
+								if id, ok := kv.Key.(*ast.Ident); ok {
+									writes[n+"."+id.Name+"<-"+fname+"(literal)"] = true
+								}
+							}
+						}
+					}
+				}
+				return true
+			})
+		}
+	}
+	var wrows []string
+	for w := range writes {
+		wrows = append(wrows, w)
+	}
+	sort.Strings(wrows)
+	pairs := make([]string, len(wrows))
+	for i, w := range wrows {
+		parts := strings.SplitN(w, "<-", 2)
+		pairs[i] = fmt.Sprintf("(%q, %q)", parts[0], parts[1])
+	}
+	fmt.Fprintf(&lzb, "def lazyFieldWrites : List (String × String) := [%s]\n", strings.Join(pairs, ", "))
+	fmt.Printf("fact F15 %d field writes in lazyproto\n", len(wrows))
 	lzb.WriteString("\nend Csproto.Generated\n")
 	writeIfChanged(filepath.Join(*out, "Lazy.lean"), []byte(lzb.String()))
 }
